@@ -532,7 +532,7 @@ def run(ck: Check):
     rng = ck.rng
     thorough = ck.tier == "thorough"
     ck.rule(
-        "sample pairs from 15 families (Gaussian continuous, heavily tied on 2-10 values, values exactly on exactly-representable bin edges, "
+        "sample pairs from 16 families (samples of > 10 000 observations in sorted / drifting order, Gaussian continuous, heavily tied on 2-10 values, values exactly on exactly-representable bin edges, "
         "values on NumPy's computed edges and their 1-ulp neighbours, disjoint / nested supports, both constant (equal / different), one constant, the same multiset replicated with different multiplicities, "
         "unequal sizes 1..60 (300 thorough)), num_bins in {2,3,5,10,17,64}; all 8 distances run through fit/compare; compared with the binary64 run of the "
         "Gallina model (bin counts exactly, distances 1e-9 rel, JS/energy on squares) and with textbook formulas computed in exact rational "
@@ -542,6 +542,37 @@ def run(ck: Check):
     )
     ncases = 3000 if thorough else 420
     cases = []
+    # very long samples (> 10 000 observations) kept in a NON-random order: sorted, and drifting (the auto rule
+    # must look at the whole sample, whatever its order)
+    longs = []
+    for k in range(2 if not thorough else 6):
+        nlong = rng.choice([10500, 12000])
+        base = [rng.gauss(0.0, 1.0) + (3.0 * j / nlong if k % 2 else 0.0) for j in range(nlong)]
+        if k % 2 == 0:
+            base.sort()
+        other = [rng.gauss(0.5, 1.2) for _ in range(rng.choice([200, 400]))]
+        longs.append(("long_ordered", base, other, rng.choice([5, 10])) if k % 4 < 2 else ("long_ordered", other, base, rng.choice([5, 10])))
+    import numpy as _np
+
+    for fam, X, Y, nb in longs:
+        # JS / KL only, against the textbook value on the auto histograms of the WHOLE samples (no Coq run: the
+        # histogram counts are an oracle input of the model anyway)
+        cls = _classes()
+        hX, hY = _np.histogram(_np.array(X), bins="auto"), _np.histogram(_np.array(Y), bins="auto")
+        js, kl, near2, _, _ = textbook_prob(X, Y, nb, hX, hY)
+        for name, exp in (("JS", js), ("KL", kl)):
+            det = cls[name](num_bins=nb)
+            det.fit(X=_np.array(X))
+            v = float(det.compare(X=_np.array(Y))[0].distance)
+            ck.case(dict(family=fam, n=len(X), m=len(Y), num_bins=nb, distance=name, value=v), nontrivial=True, key=repr((fam, name, X[:5], Y[:5], nb)))
+            ck.count("family_" + fam)
+            if near2 or math.isnan(exp):
+                ck.near_ties += 1
+                continue
+            ok = (math.isinf(v) and math.isinf(exp)) or (close(v**2, exp**2, 1e-7, 1e-11) if name == "JS" else close(v, exp, 1e-7, 1e-10))
+            if not ok:
+                ck.violation(dict(clause="formula", distance=name, input="non-constant", family=fam),
+                             dict(what=f"{name} on a sample of more than 10 000 observations differs from the value on the auto-binned histograms of the whole samples", n=len(X), m=len(Y), num_bins=nb, order="sorted / drifting", X_head=X[:6], Y_head=Y[:6], value=v, expected=exp))
     for i in range(ncases):
         fam, X, Y, nb = gen_pair(rng, thorough and i % 10 == 0)
         c = one_case(ck, fam, X, Y, nb)
